@@ -382,7 +382,8 @@ def singularityCheck(
 
     if not inclined and eccentric:
         # RAAN, Ω, is undefined
-        true_long_rp = wrapAngle2Pi(raan + argp)
+        # [NOTE]: For a retrograde orbit the in-plane angles run opposite to the right ascension
+        true_long_rp = wrapAngle2Pi(argp + raan if inc < 0.5 * PI else argp - raan)
         return 0.0, true_long_rp, wrapAngle2Pi(anomaly)
 
     if inclined and not eccentric:
@@ -392,7 +393,7 @@ def singularityCheck(
 
     # else; Circular and Equatorial
     # RAAN, Ω, and Arg. Perigee, ω, are undefined
-    true_long = wrapAngle2Pi(anomaly + argp + raan)
+    true_long = wrapAngle2Pi(anomaly + argp + raan if inc < 0.5 * PI else anomaly + argp - raan)
     return 0.0, 0.0, true_long
 
 
